@@ -708,6 +708,75 @@ func c21AccVals(rows []c21Tick, a int) (vals []float32, finite bool) {
 	return
 }
 
+// c21Reverse returns the same rows in reverse order (chunks reversed, rows within each chunk reversed).
+func c21Reverse(in *c21In) *c21In {
+	out := *in
+	out.Chunks = nil
+	revCol := func(c c21Col) c21Col {
+		n := c21Col{Type: c.Type, Vals: make([]uint64, len(c.Vals))}
+		for i, v := range c.Vals {
+			n.Vals[len(c.Vals)-1-i] = v
+		}
+		return n
+	}
+	for ci := len(in.Chunks) - 1; ci >= 0; ci-- {
+		ch := in.Chunks[ci]
+		n := c21Chunk{Epochs: make([]int64, len(ch.Epochs))}
+		for i, e := range ch.Epochs {
+			n.Epochs[len(ch.Epochs)-1-i] = e
+		}
+		if ch.Nanos != nil {
+			n.Nanos = make([]int32, len(ch.Nanos))
+			for i, e := range ch.Nanos {
+				n.Nanos[len(ch.Nanos)-1-i] = e
+			}
+		}
+		for g := range ch.Price {
+			var grp []c21Col
+			for _, c := range ch.Price[g] {
+				grp = append(grp, revCol(c))
+			}
+			n.Price = append(n.Price, grp)
+		}
+		for _, c := range ch.Acc {
+			n.Acc = append(n.Acc, revCol(c))
+		}
+		out.Chunks = append(out.Chunks, n)
+	}
+	return &out
+}
+
+// c21SameOHLC compares two outputs' windows and OHLC as numbers (NaN equals NaN, +0 equals -0).
+func c21SameOHLC(a, b []c21Row, la, lb string) string {
+	if len(a) != len(b) {
+		return fmt.Sprintf("%d candles %s, %d candles %s", len(a), la, len(b), lb)
+	}
+	eq := func(x, y uint32) bool {
+		fx, fy := math.Float32frombits(x), math.Float32frombits(y)
+		return fx == fy || (fx != fx && fy != fy)
+	}
+	for i := range a {
+		if a[i].Epoch != b[i].Epoch || !eq(a[i].O, b[i].O) || !eq(a[i].H, b[i].H) || !eq(a[i].L, b[i].L) || !eq(a[i].C, b[i].C) {
+			f := math.Float32frombits
+			return fmt.Sprintf("window %d: OHLC %v %v %v %v %s, %v %v %v %v %s",
+				a[i].Epoch, f(a[i].O), f(a[i].H), f(a[i].L), f(a[i].C), la, f(b[i].O), f(b[i].H), f(b[i].L), f(b[i].C), lb)
+		}
+	}
+	return ""
+}
+
+func c21Distinct(rows []c21Tick) bool {
+	seen := map[string]bool{}
+	for _, r := range rows {
+		k := r.t.String()
+		if seen[k] {
+			return false
+		}
+		seen[k] = true
+	}
+	return true
+}
+
 func c21Run(raw json.RawMessage) (res Result, err error) {
 	var in c21In
 	if err = json.Unmarshal(raw, &in); err != nil {
@@ -748,6 +817,21 @@ func c21Run(raw json.RawMessage) (res Result, err error) {
 		}
 		if !res.Holds && zeroTime {
 			res.Class = "candle-zero-time-sentinel"
+		}
+		// order independence for distinct timestamps: the same rows in reverse order
+		if res.Holds && !zeroTime && c21Distinct(rows) {
+			rin := c21Reverse(&in)
+			robs, _, rerr := c21Exec(rin)
+			if rerr == nil {
+				if robs.Code != 0 {
+					res.Holds, res.Detail = false, fmt.Sprintf("candler failed with code %d on the reversed rows", robs.Code)
+				} else if d := c21SameOHLC(obs.Rows, robs.Rows, "in input order", "with the rows reversed (distinct timestamps)"); d != "" {
+					res.Holds, res.Detail = false, d
+				}
+				if !res.Holds && hasNaN {
+					res.Class = "nan-price"
+				}
+			}
 		}
 	}
 	res.Nontrivial = res.InDomain && len(rows) >= 3
